@@ -7,7 +7,9 @@ from models.vocab import KEYWORDS, PUNCT
 
 BS = chr(92)  # backslash, kept out of string literals on purpose
 
-IDENTS = ["a", "b", "_x1", "$d", "intx", "_Boolx", "L", "u", "U", "u8"]
+IDENTS = ["a", "b", "_x1", "$d", "intx", "_Boolx", "L", "u", "U", "u8",
+          # look-alikes of exponents / suffixes / prefixes / keywords
+          "e1", "x1", "p1", "f", "l", "LL", "uL", "u8x", "L_", "do1", "If"]
 TYPEDEF_NAMES = ["T"]
 
 
@@ -29,13 +31,24 @@ FLOAT_BODIES = ["1.5", "1.", ".5", "1e3", "1E+3", "1.5e-3", ".5e1", "08.5", "09e
                 "0x1.8p3", "0x1p-2", "0X.8P+1", "0x1.p0"]
 
 INTS = (["1" + s for s in INT_SUFFIXES]
-        + [b + s for b in ("0", "07", "0x1F", "0b11") for s in ("", "U", "l", "uLL", "llU")])
+        + [b + s for b in ("0", "07", "0x1F", "0b11") for s in ("", "U", "l", "uLL", "llU")]
+        # traps: hex digits that look like exponent / suffix letters, shortest bodies
+        + ["00", "0x0", "0xe", "0x1e", "0x1f", "0xfL", "0b1", "0B10u", "9", "10"])
 FLOATS = ["1.5", "1.", ".5", "1e3", "1.5e-3", "1.5f", "1.5F", "1.5l", "1.5L",
-          "0x1.8p3", "0x1p-2f", "0x.8P+1L"]
+          "0x1.8p3", "0x1p-2f", "0x.8P+1L",
+          # "first alternative vs longest match" traps: a leading zero followed
+          # by 8/9 before the '.' / exponent (octal look-alikes), exponent +
+          # suffix, hex floats whose digits are e/f, shortest forms
+          "09.5", "08e3", "019.", "0089.25f", "00.5", "0.", "0.0", "0e0", "07.5", "07e1L",
+          "1e5f", "1E+3L", "1.e3", "1.e+3", ".5f", ".5e1", "1.L", "9e9",
+          "0x1.8p1", "0x1p0", "0X1.P-1F", "0xep1", "0x.ep+1", "0xfp1f"]
 CHARS = ["'c'", "L'c'", "u8'c'", "u'c'", "U'c'", "'" + BS + "n'", "'" + BS + "x41'",
-         "'" + BS + "0'", "'\"'", "'ab'", "'uu'", "'ll'", "'abcd'"]
+         "'" + BS + "0'", "'\"'", "'ab'", "'uu'", "'ll'", "'abcd'",
+         "'" + BS + "''", "'" + BS + BS + "'", "'" + BS + "?'", "'#'", "'/'",
+         "L'" + BS + "x41'", "'" + BS + "101'"]
 STRINGS = ['"s"', 'L"s"', 'u8"s"', 'u"s"', 'U"s"', '""', '"a b"', '"' + BS + '""',
-           '"\'"', '"' + BS + BS + '"']
+           '"\'"', '"' + BS + BS + '"',
+           '"/*"', '"//"', '"#pragma"', '"' + BS + 'x41"', '"' + BS + '101"', '"a' + BS + BS + '"']
 
 FULL = KEYWORDS + PUNCT + IDENTS + TYPEDEF_NAMES + INTS + FLOATS + CHARS + STRINGS
 
@@ -44,6 +57,11 @@ TRIPLE = ["+", "-", "*", "/", "%", "<", ">", "=", "!", "&", "|", "^", ".", "..."
           ":", ";", "(", ")", "->", "++", "<<", ">>=", "?", ",",
           "0", "1", "8", "1.5", "0x1", "1e3",
           "a", "e1", "x1", "p1", "L", "u", "u8", "T", "int", "'c'", '"s"']
+
+# pragma lines as members of the token stream (own line, pinned by the layout
+# model): plain, bare, with blanks / tabs between '#' and the word, indented
+PRAGMA_TOKENS = ["#pragma x", "#pragma", "# pragma once", "#\tpragma pack(1)",
+                 "  #pragma y", " \t# \tpragma z w", "#  pragma"]
 
 SEPARATORS_QUICK = ["", " ", "\n", "\t"]
 SEPARATORS_THOROUGH = ["", " ", "\n", "\t", "  ", " \n  ", "\n\n"]
